@@ -2,17 +2,21 @@
  * build them and reports, per program, what came out and whether protected state changed.
  *
  * Sites:  filter   FilterUtility::GetFilterTargets(qd, {type=Host, filter=<text>}, user)       (filterutility.cpp:268-271)
- *         event    ScriptFrame(true, new Namespace) + Sandboxed + FilterUtility::EvaluateFilter   (eventqueue.cpp:30-37)
+ *         event    EventQueue::SetFilter/ProcessEvent (eventqueue.cpp:30-56) AND EventsSubscriber + ApiEvents::CheckResultHandler ->
+ *                  EventsFilter::Push (eventqueue.cpp:250-275, the /v1/events path), then classified in a frame built the same way
  *         console  ConsoleHandler::ExecuteScriptHelper(..., sandboxed = true)                    (consolehandler.cpp:108-141)
  *         fobj     the `filter` frame with an arbitrary target object bound to `obj` (EvaluateFilter), for field reads
  *
  * Lines (text after " | " is the implementation's observation):
- *   P <site> cmp=<0|1> root=<class> abs=<s-expr, blanks as commas> src=<hex> | <outcome> chg=<g|-><o|-><f|-> leak=<0|1|2> inv=<n>
+ *   P <site> cmp=<0|1> root=<class> abs=<s-expr, blanks as commas> src=<hex> | <outcome> chg=<g|-><o|-><f|-><a|-> leak=<0|1|2> inv=<n>
+ *     (chg: globals+constants / config objects+registries / data directory / the process-wide application singleton)
  *     (inv: how many times a native WITHOUT the side-effect-free flag was actually invoked during the evaluation)
  *   N <site> name=<registered name> safe=<0|1> src=<hex>                     | <outcome> chg=... leak=..
  *   H <site> type=<T> field=<f> nuv=<0|1> src=<hex>                          | <outcome> chg=... leak=..
  *   T natives <name>=<0|1> ...                                                (the implementation's flags, one line)
- * outcome: ok | sandbox | hidden | err
+ *   E events cmp=<0|1> abs=<a1>;<a2>;.. src=<hex1>,<hex2>,..                  | <combined> ocs=<o1>,.. dlv=<bits> chg=.. leak=.. inv=..
+ *     (one event handed to SEVERAL /v1/events subscribers: EventsSubscriber per filter + ApiEvents::CheckResultHandler
+ *      -> EventsRouter -> EventsFilter::Push; dlv: which subscribers' inboxes received it)
  *
  *   X <signal> <op line>                                                      the evaluating child died (14 = per-program alarm: hang)
  * outcome: ok | sandbox | hidden | err
@@ -39,11 +43,15 @@
 #include "config/configitem.hpp"
 #include "config/expression.hpp"
 #include "icinga/user.hpp"
+#include "icinga/apievents.hpp"
+#include "icinga/checkresult.hpp"
+#include "base/application.hpp"
 #include "remote/apiuser.hpp"
 #include "remote/consolehandler.hpp"
 #include "remote/eventqueue.hpp"
 #include "remote/filterutility.hpp"
 #include <boost/beast/http.hpp>
+#include <algorithm>
 #include <dirent.h>
 #include <fstream>
 #include <functional>
@@ -66,6 +74,8 @@ VH_ROB_MEMBER(RobNsFrozen, Namespace, std::atomic<bool>, m_Frozen)
 VH_ROB_MEMBER(RobFnCallback, Function, Function::Callback, m_Callback)
 VH_ROB_STATIC(RobExecScript, bool (*type)(bhttp::request<bhttp::string_body>&, bhttp::response<bhttp::string_body>&,
 	const Dictionary::Ptr&, const String&, const String&, bool), ConsoleHandler, ExecuteScriptHelper)
+VH_ROB_MEMBER(RobInboxQueue, EventsInbox, std::queue<Dictionary::Ptr>, m_Queue)
+VH_ROB_STATIC(RobAppInstance, Application::Ptr *type, Application, m_Instance)
 VH_ROB_STATIC(RobAutoComplete, bool (*type)(bhttp::request<bhttp::string_body>&, bhttp::response<bhttp::string_body>&,
 	const Dictionary::Ptr&, const String&, const String&, bool), ConsoleHandler, AutocompleteScriptHelper)
 }
@@ -77,6 +87,7 @@ static ApiUser::Ptr l_UserPF;      /* a user whose permission on the queried typ
 static const double NUM_MARKER = 987654321;
 static Host::Ptr l_Host;
 static std::string l_Current;
+static Application::Ptr l_App;     /* keeps the application object alive and lets ResetLiveState put the singleton back */
 
 /* ---------------------------------------------------------------- canonical deep dump */
 
@@ -217,8 +228,10 @@ static std::string SnapFiles()
 	return os.str();
 }
 
-struct Snap { std::string g, o, f; };
-static Snap TakeSnap() { return { SnapGlobals(), SnapObjects(), SnapFiles() }; }
+/* a: the process-wide application singleton (Application::m_Instance: set by OnConfigLoaded, cleared by ANY Application
+ * destructor, application.cpp:83-84,105-108) — what IcingaApplication::GetInstance() hands to the whole daemon */
+struct Snap { std::string g, o, f; bool a; };
+static Snap TakeSnap() { return { SnapGlobals(), SnapObjects(), SnapFiles(), Application::GetInstance() != nullptr }; }
 
 /* ---------------------------------------------------------------- evaluation at the production call sites */
 
@@ -380,6 +393,49 @@ static Outcome EvalCompleteSite(const String& text)
 	return oc;
 }
 
+/* The /v1/events path (eventshandler.cpp:101): one EventsSubscriber per filter text on EventType::CheckResult, then the
+ * production emitter ApiEvents::CheckResultHandler builds the event and hands it to EventsRouter/EventsFilter::Push
+ * (eventqueue.cpp:250-275), which evaluates every subscribed filter.  Returns, per filter, whether the event reached
+ * the subscriber's inbox.  Throws only if a filter does not compile (as the HTTP handler would answer 400). */
+static std::vector<bool> PushThroughSubscribers(const std::vector<String>& filters)
+{
+	std::vector<std::unique_ptr<EventsSubscriber>> subs;
+	for (const String& f : filters)
+		subs.emplace_back(new EventsSubscriber({ EventType::CheckResult }, f, "<C19>"));
+	CheckResult::Ptr cr = new CheckResult();
+	cr->SetState(ServiceOK);
+	cr->SetOutput("c19");
+	ApiEvents::CheckResultHandler(l_Host, cr, nullptr);
+	std::vector<bool> delivered;
+	for (auto& sub : subs) {
+		EventsInbox::Ptr inbox = sub->GetInbox();
+		delivered.push_back(!((*inbox).*get(RobInboxQueue())).empty());
+	}
+	return delivered;
+}
+
+static Outcome EvalWithFrame(const String& text, bool allocLocals, const Object::Ptr& target, const String& varName);
+
+/* `E` lines: several subscribers with different filters on one event. */
+struct EventsObs { std::vector<Outcome> ocs; std::vector<bool> delivered; bool escaped = false; std::string text; };
+
+static EventsObs EvalEvents(const std::vector<String>& filters)
+{
+	EventsObs eo;
+	try {
+		eo.delivered = PushThroughSubscribers(filters);
+	} catch (const std::exception& ex) {
+		eo.escaped = true;
+		eo.text = DiagnosticInformation(ex, false).CStr();
+		eo.delivered.assign(filters.size(), false);
+	}
+	/* what each filter does in a frame that IS sandboxed (built here as eventqueue.cpp builds it) */
+	Dictionary::Ptr event = new Dictionary({ { "type", "CheckResult" }, { "host", "c19-host" }, { "timestamp", 1000 } });
+	for (const String& f : filters)
+		eo.ocs.push_back(EvalWithFrame(f, true, event, "event"));
+	return eo;
+}
+
 static Outcome EvalAt(const std::string& site, const String& text, const Object::Ptr& target = nullptr)
 {
 	if (site == "complete") return EvalCompleteSite(text);
@@ -402,6 +458,8 @@ static Outcome EvalAt(const std::string& site, const String& text, const Object:
 			q->ProcessEvent(event);
 			queued = q->WaitForEvent(&client, 0) != nullptr;
 			q->RemoveClient(&client);
+			/* (a') the /v1/events path with this filter as the only subscriber */
+			if (PushThroughSubscribers({ text })[0]) queued = true;
 		} catch (const std::exception& ex) {
 			if (compiled) {
 				std::string m = DiagnosticInformation(ex, false).CStr();
@@ -454,13 +512,52 @@ static void Observe(const std::string& opPrefix, const std::string& site, const 
 	int invoked = l_UnsafeInvoked;
 	Application::GetTP().Restart();      /* join anything the evaluation queued */
 	Snap after = TakeSnap();
-	char chg[4] = { after.g != l_Before.g ? 'g' : '-', after.o != l_Before.o ? 'o' : '-', after.f != l_Before.f ? 'f' : '-', 0 };
+	char chg[5] = { after.g != l_Before.g ? 'g' : '-', after.o != l_Before.o ? 'o' : '-', after.f != l_Before.f ? 'f' : '-', after.a != l_Before.a ? 'a' : '-', 0 };
 	/* leak: 0 none; 1 the secret is in a computed value or an error text; 2 only as the `password` field of
 	 * a config object that the console serialized with all its fields */
 	int leak = (oc.text.find(SECRET) != std::string::npos || oc.text.find("987654321") != std::string::npos || (l_LeakMask & 1) || l_ValueLeak) ? 1 : ((l_LeakMask & 2) ? 2 : 0);
 	printf("%s | %s chg=%s leak=%d inv=%d\n", l_Current.c_str(), oc.kind.c_str(), chg, leak, invoked);
 	fflush(stdout);
-	if (chg[0] != '-' || chg[1] != '-') {
+	if (chg[0] != '-' || chg[1] != '-' || chg[3] != '-') {
+		ResetLiveState(true);
+		ResetLiveState(false);
+		after = TakeSnap();
+	}
+	l_Before = after;
+	l_Current.clear();
+}
+
+/* `E events cmp=<0|1> abs=<a1>;<a2>;.. src=<hex1>,<hex2>,.. | <combined outcome> ocs=<o1>,<o2>,.. dlv=<bits> chg=.. leak=.. inv=..`
+ * combined: ok iff every filter evaluates to a value in a sandboxed frame, else the first refusal/error class;
+ * dlv: per filter, did the event reach that subscriber's inbox. */
+static void ObserveEvents(const std::string& opPrefix, const std::vector<std::string>& srcs)
+{
+	std::string hex;
+	for (size_t i = 0; i < srcs.size(); i++) hex += (i ? "," : "") + Hex(srcs[i]);
+	if (l_GenOnly) { l_Lines.push_back(opPrefix + " src=" + hex); return; }
+	if (!l_HaveBefore) { l_Before = TakeSnap(); l_HaveBefore = true; }
+	l_Current = opPrefix + " src=" + hex;
+	l_LeakMask = 0;
+	l_ValueLeak = false;
+	l_UnsafeInvoked = 0;
+	std::vector<String> filters;
+	for (auto& x : srcs) filters.emplace_back(x);
+	EventsObs eo = EvalEvents(filters);
+	int invoked = l_UnsafeInvoked;
+	Application::GetTP().Restart();
+	Snap after = TakeSnap();
+	char chg[5] = { after.g != l_Before.g ? 'g' : '-', after.o != l_Before.o ? 'o' : '-', after.f != l_Before.f ? 'f' : '-', after.a != l_Before.a ? 'a' : '-', 0 };
+	std::string combined = eo.escaped ? "err" : "ok", ocs, dlv;
+	bool leak = l_ValueLeak;
+	for (size_t i = 0; i < eo.ocs.size(); i++) {
+		if (combined == "ok" && eo.ocs[i].kind != "ok") combined = eo.ocs[i].kind;
+		ocs += (i ? "," : "") + eo.ocs[i].kind;
+		dlv += eo.delivered[i] ? '1' : '0';
+		if (eo.ocs[i].text.find(SECRET) != std::string::npos || eo.ocs[i].text.find("987654321") != std::string::npos) leak = true;
+	}
+	printf("%s | %s ocs=%s dlv=%s chg=%s leak=%d inv=%d\n", l_Current.c_str(), combined.c_str(), ocs.c_str(), dlv.c_str(), chg, leak ? 1 : 0, invoked);
+	fflush(stdout);
+	if (chg[0] != '-' || chg[1] != '-' || chg[3] != '-') {
 		ResetLiveState(true);
 		ResetLiveState(false);
 		after = TakeSnap();
@@ -577,6 +674,7 @@ static const Canned l_Canned[] = {
 	{ "Dictionary()", "(call (type Dictionary))", 1 },
 	{ "Host()", "(call (type Host))", 0 },
 	{ "ApiUser()", "(call (type ApiUser))", 0 },
+	{ "IcingaApplication()", "(call (type IcingaApplication))", 0 },       /* F-C19c (repaired by ac7cac3): must change nothing */
 	{ "len(\"abc\")", "(call (fn System#len) (str abc))", 1 },
 	{ "\"abc\".len()", "(mcall (str abc) len)", 1 },
 	{ "log(\"x\")", "(call (fn System#log) (str x))", 1 },
@@ -615,6 +713,51 @@ static const Canned l_Canned[] = {
 	{ "C19UnknownRoot_%S.a.b = 1", "(setField (index (var C19UnknownRoot_%S) (str a)) b literal (num 1))", 1 },
 	{ "var c19_lv.a.b = 1", "(setField (index (index (getScope locals) (str c19_lv)) (str a)) b literal (num 1))", 1 },
 	{ "try { get_object(Host, \"c19-host\").vars.c19t_%S.injected = 1 } except { 1 }", "(tryExcept (dict 1 (setField (index (index (obj c19-host) (str vars)) (str c19t_%S)) injected literal (num 1))) (dict 1 (num 1)))", 1 },
+	/* assignments written as MEMBERS OF A DICTIONARY LITERAL (BindToScope binds a bare name to the new dictionary, nothing
+	 * else): explicitly rooted l-values, aliases of live containers stored by an earlier member, dereferences, nested
+	 * literals, literals as arguments/receivers/array elements/lambda bodies */
+	{ "{ globals.C19Lit_%S = 1 }", "(dict 0 (setScoped globals C19Lit_%S literal (num 1)))", 1 },
+	{ "{ globals.C19Global = 6 }", "(dict 0 (setScoped globals C19Global literal (num 6)))", 1 },
+	{ "{ globals.C19Global += 1 }", "(dict 0 (setScoped globals C19Global add (num 1)))", 1 },
+	{ "{ globals[\"C19LitI_%S\"] = 1 }", "(dict 0 (setScoped globals C19LitI_%S literal (num 1)))", 1 },
+	{ "len({ globals.C19LitL_%S = 1 }) >= 0", "(binop greaterThanOrEqual (call (fn System#len) (dict 0 (setScoped globals C19LitL_%S literal (num 1)))) (num 0))", 1 },
+	{ "{ globals.C19LitX_%S = 1 }.x == 1", "(binop equal (index (dict 0 (setScoped globals C19LitX_%S literal (num 1))) (str x)) (num 1))", 1 },
+	{ "[ { globals.C19LitA_%S = 1 } ]", "(array (dict 0 (setScoped globals C19LitA_%S literal (num 1))))", 1 },
+	{ "{ a = { globals.C19LitN_%S = 1 } }", "(dict 0 (setScoped this a literal (dict 0 (setScoped globals C19LitN_%S literal (num 1)))))", 1 },
+	{ "{ v = get_object(Host, \"c19-host\").vars; v.os = \"lit\" }", "(dict 0 (setScoped this v literal (index (obj c19-host) (str vars))) (setField (index (getScope this) (str v)) os literal (str lit)))", 1 },
+	{ "{ v = get_object(Host, \"c19-host\"); v.display_name = \"lit\" }", "(dict 0 (setScoped this v literal (obj c19-host)) (setField (index (getScope this) (str v)) display_name literal (str lit)))", 0 },
+	{ "{ v = get_object(Host, \"c19-host\").vars.list; v[0] = \"lit\" }", "(dict 0 (setScoped this v literal (index (index (obj c19-host) (str vars)) (str list))) (setField (index (getScope this) (str v)) 0 literal (str lit)))", 1 },
+	{ "{ v = C19Dict; v.k = 1 }", "(dict 0 (setScoped this v literal (var C19Dict)) (setField (index (getScope this) (str v)) k literal (num 1)))", 1 },
+	{ "{ v = C19Arr; v[0] = 9 }", "(dict 0 (setScoped this v literal (var C19Arr)) (setField (index (getScope this) (str v)) 0 literal (num 9)))", 1 },
+	{ "{ v = globals; v.C19LitG_%S = 1 }", "(dict 0 (setScoped this v literal (getScope globals)) (setField (index (getScope this) (str v)) C19LitG_%S literal (num 1)))", 1 },
+	{ "{ v = fv_dict; v.os = \"lit\" }", "(dict 0 (setScoped this v literal (var fv_dict)) (setField (index (getScope this) (str v)) os literal (str lit)))", 0 },
+	{ "{ *(&globals.C19Global) = 9 }", "(dict 0 (setDeref (ref (index (getScope globals) (str C19Global))) literal (num 9)))", 1 },
+	{ "{ get_object(Host, \"c19-host\").display_name = \"lit\" }", "(dict 0 (setField (obj c19-host) display_name literal (str lit)))", 1 },
+	{ "{ get_object(Host, \"c19-host\").vars.os = \"lit\" }", "(dict 0 (setField (index (obj c19-host) (str vars)) os literal (str lit)))", 1 },
+	{ "{ locals.c19_ll = 1 }", "(dict 0 (setScoped locals c19_ll literal (num 1)))", 1 },
+	{ "{ this.a = 1 }", "(dict 0 (setScoped this a literal (num 1)))", 1 },
+	{ "{ a = 1; b = a + 1 }", "(dict 0 (setScoped this a literal (num 1)) (setScoped this b literal (num 2)))", 1 },
+	{ "{ a += 1 }", "(dict 0 (setScoped this a add (num 1)))", 1 },
+	{ "{ var c19_dv = 1 }", "(dict 0 (setScoped locals c19_dv literal (num 1)))", 1 },
+	{ "{ const C19LitC_%S = 1 }", "(dict 0 (setConst C19LitC_%S (num 1)))", 1 },
+	{ "{ function c19_lf_%S() { globals.C19Global = 1 } }", "(dict 0 (setScoped this c19_lf_%S literal (function c19_lf_%S (setScoped globals C19Global literal (num 1)))))", 1 },
+	{ "{ a = (() => { globals.C19LitF_%S = 1 })() }", "(dict 0 (setScoped this a literal (call (function lambda (setScoped globals C19LitF_%S literal (num 1))))))", 1 },
+	{ "C19Arr.map((x) => { { globals.C19LitM_%S = x } })", "(mcall (var C19Arr) map (function lambda (num 1)))", 0 },
+	{ "if (true) { { globals.C19LitIf_%S = 1 } }", "(cond (bool 1) (dict 1 (dict 0 (setScoped globals C19LitIf_%S literal (num 1)))))", 1 },
+	{ "try { { globals.C19LitT_%S = 1 } } except { { globals.C19LitE_%S = 1 } }", "(tryExcept (dict 1 (dict 0 (setScoped globals C19LitT_%S literal (num 1)))) (dict 1 (dict 0 (setScoped globals C19LitE_%S literal (num 1)))))", 1 },
+	/* method calls whose RECEIVER is a hidden attribute (the receiver is resolved by IndexerExpression::GetReference, not by
+	 * IndexerExpression::DoEvaluate: expression.cpp:748-799) and type-constructor calls (they run before the whitelist test) */
+	{ "get_object(ApiUser, \"c19-user\").password.len()", "(mcall (index (obj c19-user) (str password)) len)", 1 },
+	{ "get_object(ApiUser, \"c19-user\").password.contains(\"S\")", "(mcall (index (obj c19-user) (str password)) contains (str S))", 1 },
+	{ "get_object(ApiUser, \"c19-user\").password.split(\"\")", "(mcall (index (obj c19-user) (str password)) split (str))", 1 },
+	{ "get_object(ApiUser, \"c19-user\").password.upper()", "(mcall (index (obj c19-user) (str password)) upper)", 1 },
+	{ "get_object(ApiUser, \"c19-user\")[\"password\"].lower()", "(mcall (index (obj c19-user) (str password)) lower)", 1 },
+	{ "get_object(ApiUser, \"c19-user\").password.to_string()", "(mcall (index (obj c19-user) (str password)) to_string)", 1 },
+	{ "get_object(ApiUser, \"c19-user\").password_hash.len()", "(mcall (index (obj c19-user) (str password_hash)) len)", 1 },
+	{ "get_object(ApiUser, \"c19-user\").password.len.call(get_object(ApiUser, \"c19-user\").password)", "(mcall (index (index (obj c19-user) (str password)) (str len)) call (index (obj c19-user) (str password)))", 1 },
+	{ "String(get_object(ApiUser, \"c19-user\").password)", "(call (type String) (index (obj c19-user) (str password)))", 1 },
+	{ "Array(get_object(ApiUser, \"c19-user\").password)", "(call (type Array) (index (obj c19-user) (str password)))", 1 },
+	{ "String(log(\"x\"))", "(call (type String) (call (fn System#log) (str x)))", 1 },
 	/* unsafe natives as callbacks of every higher-order safe native */
 	{ "[ \"C19Global\" ].map(globals.remove)", "(mcall (array (str C19Global)) map (index (getScope globals) (str remove)))", 0 },
 	{ "[ \"C19Global\" ].filter(globals.remove)", "(mcall (array (str C19Global)) filter (index (getScope globals) (str remove)))", 0 },
@@ -750,6 +893,15 @@ static Prog GenStmtRaw(Rng& rng, int depth, int& id)
 {
 	int k = (int)rng.below(depth > 0 ? 14 : 8);
 	std::string n = std::to_string(++id);
+	if (rng.below(8) == 0) {          /* assignment as a member of a dictionary literal whose l-value leaves the literal */
+		switch (rng.below(5)) {
+			case 0: return { "{ globals.C19GenLit_" + n + " = 1 }", "(dict 0 (setScoped globals C19GenLit_" + n + " literal (num 1)))", false, false };
+			case 1: return { "len({ k = 1; globals.C19Global = " + n + " })", "(call (fn System#len) (dict 0 (setScoped this k literal (num 1)) (setScoped globals C19Global literal (num " + n + "))))", false };
+			case 2: return { "{ v = C19Dict; v.m" + n + " = 1 }", "(dict 0 (setScoped this v literal (var C19Dict)) (setField (index (getScope this) (str v)) m" + n + " literal (num 1)))", false, false };
+			case 3: return { "{ v = get_object(Host, \"c19-host\").vars; v.g" + n + " = 1 }", "(dict 0 (setScoped this v literal (index (obj c19-host) (str vars))) (setField (index (getScope this) (str v)) g" + n + " literal (num 1)))", false, false };
+			default: return { "{ a = { *(&globals.C19Global) = " + n + " } }", "(dict 0 (setScoped this a literal (dict 0 (setDeref (ref (index (getScope globals) (str C19Global))) literal (num " + n + ")))))", false, false };
+		}
+	}
 	if (rng.below(8) == 0) {          /* assignment through missing keys, 2-3 levels */
 		switch (rng.below(4)) {
 			case 0: return { "get_object(Host, \"c19-host\").vars.g" + n + ".x = 1", "(setField (index (index (obj c19-host) (str vars)) (str g" + n + ")) x literal (num 1))", false };
@@ -893,6 +1045,7 @@ static void PlantMarkers(const Object::Ptr& inst);
  * so that one defect does not mask the next. */
 static void ResetLiveState(bool hostPart)
 {
+	if (!Application::GetInstance() && l_App) *get(RobAppInstance()) = l_App;
 	if (hostPart) {
 		l_Host->SetGroups(new Array({ "zz-group", "aa-group", "mm-group" }));
 		l_Host->SetVars(new Dictionary({ { "os", "Linux" }, { "list", new Array({ "c", "a", "b" }) },
@@ -929,6 +1082,7 @@ static void Setup()
 	WriteFile(dd + "/zones/z1/a.conf", "globals.C19IncludedZone = 1\n");
 
 	SetNow(1700000000.0);
+	l_App = Application::GetInstance();
 
 	l_Host = new Host();
 	l_Host->SetName("c19-host");
@@ -1036,6 +1190,13 @@ static void GenHidden()
 				{ "usingcall", "using obj\nstring(" + fn + ")" },
 				{ "forin", "for (k => v in obj) { if (k == \"" + fn + "\") { log(v) } }" },
 				{ "getfield", "obj.get(\"" + fn + "\")" },
+				/* the field as RECEIVER of a method call (resolved through IndexerExpression::GetReference) and as constructor argument */
+				{ "mlen", "obj." + fn + ".len()" },
+				{ "mcontains", "obj." + fn + ".contains(\"S\")" },
+				{ "mtostr", "obj." + fn + ".to_string()" },
+				{ "midxlen", "obj[\"" + fn + "\"].len()" },
+				{ "mcall", "obj." + fn + ".len.call(obj." + fn + ")" },
+				{ "ctor", "String(obj." + fn + ")" },
 			};
 			for (auto& pth : paths) {
 				std::ostringstream op;
@@ -1136,6 +1297,77 @@ static void GenLines(uint64_t seed, bool thorough)
 		}
 	}
 
+	/* 1c. constructor calls of EVERY registered type (VMOps::ConstructorCall runs before the whitelist test,
+	 * expression.cpp:463-474): no arguments and one argument, sites in rotation */
+	{
+		std::vector<String> tnames;
+		for (const Type::Ptr& t : Type::GetAllTypes()) tnames.push_back(t->GetName());
+		std::sort(tnames.begin(), tnames.end());
+		int k = 0;
+		for (const String& tn : tnames)
+			for (const char *arg : { "", "1" }) {
+				const char *site = l_Sites[k++ % l_SitesN];
+				std::string src = std::string(tn.CStr()) + "(" + arg + ")";
+				std::ostringstream op;
+				op << "P " << site << " cmp=0 root=" << RootKind(src) << " abs=(call,(type," << tn << ")" << (*arg ? ",(num,1)" : "") << ")";
+				Observe(op.str(), site, src);
+			}
+	}
+
+	/* 1d. the /v1/events path with SEVERAL subscribers on one event: every unordered pair of a pool of filters (values,
+	 * errors, refused statements, unsafe calls, hidden reads) and seeded larger subsets.  Every evaluation must be
+	 * sandboxed whatever the other subscribers' filters did. */
+	{
+		struct EvF { std::string src, abs; bool cmp = true; };
+		std::vector<EvF> pool = {
+			{ "true", "(bool 1)" },
+			{ "event.host == \"c19-host\"", "(binop equal (str c19-host) (str c19-host))" },
+			{ "false", "(bool 0)" },
+			{ "event.host.no_such_method()", "(mcall (str c19-host) no_such_method)" },
+			{ "throw \"ev\"", "(throw (str ev))" },
+			{ "1 / 0 > 0", "(binop greaterThan (binop divide (num 1) (num 0)) (num 0))" },
+			{ "globals.C19Ev_a = 1", "(setScoped globals C19Ev_a literal (num 1))" },
+			{ "C19Global = 77", "(setVar C19Global literal (num 77))" },
+			{ "const C19EvC = 1", "(setConst C19EvC (num 1))" },
+			{ "get_object(Host, \"c19-host\").display_name = \"ev\"", "(setField (obj c19-host) display_name literal (str ev))" },
+			{ "get_object(Host, \"c19-host\").vars.os = \"ev\"", "(setField (index (obj c19-host) (str vars)) os literal (str ev))" },
+			{ "log(\"ev\")", "(call (fn System#log) (str ev))" },
+			{ "[ \"C19Global\" ].map(globals.remove)", "(mcall (array (str C19Global)) map (index (getScope globals) (str remove)))", false },
+			{ "get_object(Host, \"c19-host\").modify_attribute(\"display_name\", \"ev\")", "(mcall (obj c19-host) modify_attribute (str display_name) (str ev))" },
+			{ "match(\"S3CR*\", get_object(ApiUser, \"c19-user\").password)", "(call (fn System#match) (str S3CR*) (index (obj c19-user) (str password)))" },
+			{ "get_object(ApiUser, \"c19-user\").password != \"\"", "(binop notEqual (index (obj c19-user) (str password)) (str))" },
+			{ "while (true) { break }", "(while (bool 1) (break))" },
+			{ "{ globals.C19Ev_lit = 1 }", "(dict 0 (setScoped globals C19Ev_lit literal (num 1)))" },
+		};
+		auto emit = [&](const std::vector<int>& idx) {
+			std::string abs;
+			std::vector<std::string> srcs;
+			bool cmp = true;
+			for (size_t i = 0; i < idx.size(); i++) {
+				cmp = cmp && pool[idx[i]].cmp;
+				std::string a = pool[idx[i]].abs;
+				for (auto& ch : a) if (ch == ' ') ch = ',';
+				abs += (i ? ";" : "") + a;
+				srcs.push_back(pool[idx[i]].src);
+			}
+			ObserveEvents(std::string("E events cmp=") + (cmp ? "1" : "0") + " abs=" + abs, srcs);
+		};
+		int n = (int)pool.size();
+		for (int i = 0; i < n; i++) emit({ i });
+		for (int i = 0; i < n; i++)
+			for (int j = i + 1; j < n; j++) emit({ i, j });
+		int more = thorough ? 600 : 120;
+		for (int t = 0; t < more; t++) {
+			int k = 3 + (int)rng.below(4);
+			std::vector<int> idx;
+			while ((int)idx.size() < k) {
+				int c = (int)rng.below(n);
+				if (std::find(idx.begin(), idx.end(), c) == idx.end()) idx.push_back(c);
+			}
+			emit(idx);
+		}
+	}
+
 	/* 2. hidden fields of every type, every read path */
 	GenHidden();
 
@@ -1219,6 +1451,18 @@ static void GenLines(uint64_t seed, bool thorough)
 /* Evaluate one op line (executor child). */
 static bool ExecLine(const std::string& line)
 {
+	if (line.size() > 3 && line[0] == 'E') {
+		size_t sp2 = line.rfind(" src=");
+		if (sp2 == std::string::npos) return false;
+		std::vector<std::string> srcs;
+		std::string hex = Tok(line, "src"), cur;
+		for (char c : hex + ",") {
+			if (c == ',') { srcs.push_back(UnHex(cur)); cur.clear(); } else cur += c;
+		}
+		if (srcs.empty()) return false;
+		ObserveEvents(line.substr(0, sp2), srcs);
+		return true;
+	}
 	if (line.size() < 3 || (line[0] != 'P' && line[0] != 'N' && line[0] != 'H')) return false;
 	size_t sp = line.find(' ', 2);
 	size_t sp2 = line.rfind(" src=");
